@@ -9,6 +9,8 @@ Clauses -> checks (each a separate Check, so one red clause does not hide the ot
   no-exception, shown-once-in-order, hidden-only-permitted, fits-width, any-fills-line,
   space-breaks-at-spaces (+ the same clause restricted to breaks next to a double-width character),
   alignment-and-rendered-rows, clip-window, ellipsis-mark, rows-equals-lines, undisplayable-empty-line,
+  natural-size (strengthened, seed C01-e2: FIXED sizing, no width -- pack(()) / pack() against the model's newline-delimited
+  lines incl. the empty line a trailing newline opens, render(()) against pack(()); once per text x wrap x alignment),
   unencodable-str (texts whose characters the target encoding cannot represent; see the note there),
   history-independent (+ /random): the clause "the row count reported for a width equals the number of lines rendered
   at that width" over HISTORIES of calls on ONE widget -- see the section "histories" below.
@@ -90,6 +92,7 @@ CLAUSES = {
     "clip-window": "clip mode: row i shows newline-delimited line i through a width-wide window placed by the alignment (prefix / middle / suffix when too long); cut double-width characters are blank",
     "ellipsis-mark": "ellipsis mode: a line that fits is shown aligned; otherwise the longest prefix that leaves room for the mark, then the mark (the encoding's ellipsis or dots)",
     "rows-equals-lines": "rows((w,)) before and after the render = len(render((w,)).text) = pack((w,))[1] = len(layout)",
+    "natural-size": "no width given (FIXED sizing, size ()): pack(()) reports the columns of the widest newline-delimited line (model's width table) and one row per newline-delimited line -- a trailing newline opens a last, empty line -- and render(()) is exactly that canvas: the row count reported equals the lines rendered; rows((cols,)) at that natural width agrees (cols >= 1)",
     "undisplayable-empty-line": "wrapping modes, a character wider than the width: exactly one empty line, no error",
     "history-independent": "one widget measured through a history -- rows / pack / render / get_line_translation at width w1, optionally set_text / set_wrap_mode / set_align_mode / set_layout, then rows / pack / render / get_line_translation at width w2, then once more at w2 -- answers every time exactly what a fresh widget with the current text and modes answers (whose row count = rendered lines is rows-equals-lines above)",
     "unencodable-str": "str texts with characters outside the target encoding: no exception, every row exactly `width` columns, rows = lines (auxiliary: the statement's 'characters shown' cannot hold for characters the terminal encoding lacks)",
@@ -430,6 +433,50 @@ def judge(m, mode, width, wrap, align, obs=None):
     return out, obs
 
 
+def judge_natural(m, mode, wrap, align):
+    """FIXED sizing (no width): pack(()) against the model's newline-delimited lines, render(()) against pack(()).
+    -> (ok, nontrivial, why, obs)"""
+    obs = {}
+    try:
+        t = Text(m.text, align=align, wrap=wrap)
+        pk = tuple(t.pack(()))
+        pk_none = tuple(Text(m.text, align=align, wrap=wrap).pack())
+        canv = t.render(())
+        rows = list(canv.text)
+        size = (canv.cols(), canv.rows())
+        after = tuple(t.pack(()))
+        flow_rows = t.rows((pk[0],)) if pk[0] >= 1 else None
+    except Exception as e:  # noqa: BLE001  -- an exception is itself the observation
+        frames = [f for f in traceback.extract_tb(e.__traceback__) if "urwid" in f.filename]
+        where = " <- ".join(f"{os.path.basename(f.filename)}:{f.lineno} {f.name}" for f in reversed(frames[-3:]))
+        obs["exc"] = f"{type(e).__name__}: {' '.join(str(e).split())[:120]} [at {where}]"
+        return False, True, f"raised {obs['exc']}", obs
+    obs.update(rows=rows, pack=pk)
+    want = (max(m.cols(a, b) for a, b in m.lines), len(m.lines))
+    widths = [decode_row(r, mode, m.enc) for r in rows]
+    bad = []
+    if pk != want:
+        bad.append(f"pack(()) = {pk}, the text has {want[1]} newline-delimited lines, the widest {want[0]} columns")
+    if not (pk == pk_none == after):
+        bad.append(f"pack(()) = {pk}, pack() = {pk_none}, pack(()) after the render = {after}")
+    if size != pk or len(rows) != pk[1]:
+        bad.append(f"pack(()) = {pk} but render(()) is a {size[0]} x {size[1]} canvas with {len(rows)} text rows")
+    if any(w != size[0] for w in widths):
+        bad.append(f"row widths {widths} in a canvas of {size[0]} columns")
+    if flow_rows is not None and flow_rows != pk[1]:
+        bad.append(f"rows(({pk[0]},)) = {flow_rows} at the natural width, pack(()) reports {pk[1]} rows")
+    return not bad, len(m.lines) > 1, "; ".join(bad), obs
+
+
+def natural_detail(cfg, m, wrap, align, why, obs):
+    d = {"enc": cfg[0], "bytes": cfg[2], "classes": m.classes, "text": repr(m.text), "width": None, "wrap": wrap, "align": align, "why": why, "clause": "natural-size"}
+    for k in ("rows", "pack", "exc"):
+        if k in obs:
+            d[k] = repr(obs[k])
+    d["repro"] = f"urwid.set_encoding({cfg[0]!r}); t = urwid.Text({m.text!r}, align={align!r}, wrap={wrap!r}); t.pack(()), t.render(()).text"
+    return d
+
+
 def judge_unencodable(m, mode, width, wrap, align):
     obs = observe(m, width, wrap, align)
     if "exc" in obs:
@@ -484,6 +531,12 @@ def _task(args):
             m = TextModel(classes, enc, as_bytes, pool)
             if kind != "main" and not any(c in ("z" if mode == "wide" else "wz") for c in classes):
                 continue  # representable text: already covered by the main configurations
+            if kind == "main":
+                # FIXED sizing: no width -- once per text x wrap x alignment
+                for wrap in wraps:
+                    for align in ALIGNS:
+                        ok, nontrivial, why, obs = judge_natural(m, mode, wrap, align)
+                        tallies["natural-size"].case(ok, lambda: natural_detail(cfg, m, wrap, align, why, obs), nontrivial, {"enc": enc, "bytes": as_bytes, "classes": classes, "width": None, "wrap": wrap, "align": align})  # noqa: B023
             for width in range(1, maxw + 1):
                 for wrap in wraps:
                     for align in ALIGNS:
@@ -838,6 +891,15 @@ def replay(check_name, case):
     table = UNENCODABLE if clause == "unencodable-str" else CONFIGS
     cfg = next(c for c in table if c[0] == case["enc"] and c[2] == case["bytes"])
     enc, mode, as_bytes, _alphabet, pool = cfg
+
+    if clause == "natural-size":
+        def nbody():
+            m = TextModel(case["classes"], enc, as_bytes, pool)
+            ok, _nt, why, obs = judge_natural(m, mode, case["wrap"], case["align"])
+            return ok, natural_detail(cfg, m, case["wrap"], case["align"], why, obs)
+
+        ok, d = _with_encoding(enc, nbody)
+        return {"outcome": "not-reproduced" if ok else "confirmed", "detail": d}
 
     def body():
         m = TextModel(case["classes"], enc, as_bytes, pool)
